@@ -187,35 +187,47 @@ def _make_value(att, spec, holders):
 
 
 class Env:
-    """A real Device + gatt_server.Server with one or several bearers and capturing sinks.
-    A bearer spec is {'mtu','enc','auth','enh'[, 'on': k]}: a fixed ATT bearer is a Connection of its own
-    (connection handle CONN_HANDLE + index) with the given security state; an enhanced bearer ('enh') is a real
-    LeCreditBasedChannel subclass, on its own connection or ('on': k) on the connection of bearer k, whose
-    security state it then shares."""
+    """A real Device + Host + l2cap.ChannelManager + gatt_server.Server with one or several bearers, the harness
+    playing the peer ON THE WIRE: everything the stack transmits is captured at Host.send_acl_sdu (L2CAP basic
+    frames), everything it receives enters through ChannelManager.on_pdu.
 
-    def __init__(self, db, bearers, max_mtu=517):
+    A bearer spec is {'mtu','enc','auth','enh'[, 'on': k, 'peer_mtu', 'peer_mps', 'req']}:
+    * a fixed ATT bearer is a Connection of its own (handle CONN_HANDLE + index) with the given security state; its
+      ATT_MTU is brought to spec['mtu'] by a real Exchange MTU Request on the wire (23 when none is needed);
+    * an enhanced bearer ('enh') is created through the REAL L2CAP accept path: the server registers its EATT
+      server (register_eatt with the scenario's 'eatt_mtu' / 'eatt_mps', default 2048), the harness sends an
+      LE Credit Based Connection Request ('req': 'le') or an Enhanced Credit Based Connection Request
+      ('req': 'enhanced') for the EATT PSM with peer MTU 'peer_mtu' (default spec['mtu']) and MPS 'peer_mps' on
+      the LE signalling channel, on its own connection or ('on': k) on the connection of bearer k, and reads the
+      connection response; ATT PDUs then travel as K-frames (SDU length + segments of at most MPS bytes).
+    `wire_mtu[k]` is the ATT_MTU the property means, computed only from what was exchanged on the wire:
+    min(MTU field of the request, MTU field of the response) for an enhanced bearer; for a fixed bearer 23,
+    then min(client_rx_mtu, server_rx_mtu) after each Exchange MTU Request (>= 23) / Response pair."""
+
+    def __init__(self, db, bearers, max_mtu=517, eatt_mtu=2048, eatt_mps=2048):
+        import struct
         from bumble import att, core, gatt, gatt_server, hci, l2cap
         from bumble.device import Connection, Device
+        from bumble.host import Host
 
         if isinstance(bearers, dict):
             bearers = [bearers]
         self.att = att
-        self.sent = []                # (bearer index, PDU) handed to a bearer by the server, in order
-        self.device = Device(name='verif', address=hci.Address('F0:F1:F2:F3:F4:F5'))
+        self.l2cap = l2cap
+        self.struct = struct
+        self.sent = []                # (bearer index, ATT PDU / SDU) received by the peer, in order
+        self.signalling = []          # (connection handle, control frame) received by the peer
+        self.frames = 0               # K-frames received by the peer
+        host = Host()
+        host.send_acl_sdu = self._on_acl_sdu
+        self.device = Device(name='verif', address=hci.Address('F0:F1:F2:F3:F4:F5'), host=host)
+        self.manager = self.device.l2cap_channel_manager
         self.server = gatt_server.Server(self.device)      # fresh, empty database
         self.server.max_mtu = max_mtu
         self.device.gatt_server = self.server
-        self.by_conn_handle = {}
-        # the sink of a fixed ATT bearer: Server.send_gatt_pdu -> device.send_l2cap_pdu(handle, ATT_CID, pdu)
-        def send_l2cap_pdu(connection_handle, cid, pdu):
-            assert cid == att.ATT_CID
-            self.sent.append((self.by_conn_handle[connection_handle], bytes(pdu)))
-        self.device.send_l2cap_pdu = send_l2cap_pdu
-        env = self
-
-        class CapturingChannel(l2cap.LeCreditBasedChannel):
-            def write(self, data):          # the sink of an EATT bearer
-                env.sent.append((self.verif_index, bytes(data)))
+        self.fixed_of_handle = {}     # connection handle -> index of its fixed bearer
+        self.eatt_of_cid = {}         # (connection handle, peer source cid) -> bearer index
+        self.reasm = {}               # bearer index -> [expected length, bytearray]
 
         def new_connection(k, spec):
             conn = Connection(self.device, CONN_HANDLE + k, core.PhysicalTransport.LE,
@@ -230,32 +242,57 @@ class Env:
         self.bearers = []       # the objects the server sees
         self.conns = []         # the connection of each bearer
         self.kinds = []
-        eatt_handler = {}
+        self.wire_mtu = []
+        self.peer = []          # per enhanced bearer: dict(dcid, srv_mps, scid)
+        registered = False
         for k, spec in enumerate(bearers):
             if spec.get('enh'):
-                if 'on' in spec and spec['on'] is not None:
+                if spec.get('on') is not None:
                     conn = self.conns[spec['on']]
                     assert bool(conn.encryption) == bool(spec['enc']) and conn.authenticated == bool(spec['auth'])
                 else:
-                    conn = new_connection(k, spec)      # no fixed-bearer traffic is sent on it
-                    self.by_conn_handle[CONN_HANDLE + k] = -1
-                ch = CapturingChannel(self.device.l2cap_channel_manager, conn, att.EATT_PSM, 0x40 + k, 0x80 + k,
-                                      spec['mtu'], 64, 10, spec['mtu'], 64, 10, True)
-                ch.verif_index = k
-                if not eatt_handler:
-                    # let the real register_eatt() install its sink on the channels
-                    self.device.create_l2cap_server = lambda spec, handler: eatt_handler.setdefault('h', handler)
-                    self.server.register_eatt()
-                eatt_handler['h'](ch)
-                obj = ch
+                    conn = new_connection(k, spec)
+                if not registered:
+                    self.server.register_eatt(l2cap.LeCreditBasedChannelSpec(psm=att.EATT_PSM, mtu=eatt_mtu, mps=eatt_mps))
+                    registered = True
+                scid = 0x40 + k
+                peer_mtu = spec.get('peer_mtu') or spec['mtu']
+                peer_mps = spec.get('peer_mps') or 2048
+                self.eatt_of_cid[(conn.handle, scid)] = k
+                before = len(self.signalling)
+                if spec.get('req') == 'enhanced':
+                    frame = l2cap.L2CAP_Credit_Based_Connection_Request(
+                        identifier=1 + k, spsm=att.EATT_PSM, mtu=peer_mtu, mps=peer_mps, initial_credits=65535,
+                        source_cid=[scid])
+                else:
+                    frame = l2cap.L2CAP_LE_Credit_Based_Connection_Request(
+                        identifier=1 + k, le_psm=att.EATT_PSM, source_cid=scid, mtu=peer_mtu, mps=peer_mps,
+                        initial_credits=65535)
+                self.manager.on_pdu(conn, l2cap.L2CAP_LE_SIGNALING_CID, bytes(frame))
+                rsp = [f for (h, f) in self.signalling[before:] if h == conn.handle]
+                if len(rsp) != 1 or int(rsp[0].result) != 0:
+                    raise RuntimeError(f'EATT bearer {k} was not accepted: {rsp}')
+                rsp = rsp[0]
+                dcid = rsp.destination_cid[0] if spec.get('req') == 'enhanced' else rsp.destination_cid
+                obj = self.manager.find_channel(conn.handle, dcid)
+                if obj is None or obj.sink is None:
+                    raise RuntimeError(f'EATT bearer {k}: no channel / sink after the connection response')
+                self.peer.append({'dcid': dcid, 'srv_mps': rsp.mps, 'scid': scid})
+                self.wire_mtu.append(min(peer_mtu, rsp.mtu))
             else:
                 conn = new_connection(k, spec)
-                self.by_conn_handle[CONN_HANDLE + k] = k
+                self.fixed_of_handle[CONN_HANDLE + k] = k
                 obj = conn
-            obj.att_mtu = spec['mtu']
+                self.peer.append(None)
+                self.wire_mtu.append(23)
             self.bearers.append(obj)
             self.conns.append(conn)
             self.kinds.append(bool(spec.get('enh')))
+        # fixed bearers: bring the ATT_MTU to the requested value by a real exchange
+        for k, spec in enumerate(bearers):
+            if not spec.get('enh') and spec['mtu'] != 23:
+                self.deliver(b'\x02' + le16(spec['mtu']), k)
+        self.sent.clear()
         self.bearer = self.bearers[0]
         self.holders = {}
         self._build(db, gatt)
@@ -323,11 +360,51 @@ class Env:
         return out
 
     # ---- stimuli
+    # ---- the wire
+    def _on_acl_sdu(self, connection_handle, data):
+        """Host.send_acl_sdu: an L2CAP basic frame leaving the stack"""
+        length, cid = self.struct.unpack_from('<HH', data, 0)
+        payload = bytes(data[4:4 + length])
+        if cid == self.att.ATT_CID:
+            k = self.fixed_of_handle.get(connection_handle, -1)
+            self._peer_got(k, payload)
+        elif cid == self.l2cap.L2CAP_LE_SIGNALING_CID:
+            self.signalling.append((connection_handle, self.l2cap.L2CAP_Control_Frame.from_bytes(payload)))
+        else:
+            k = self.eatt_of_cid.get((connection_handle, cid), -1)
+            self.frames += 1
+            st = self.reasm.get(k)
+            if st is None:
+                want = self.struct.unpack_from('<H', payload, 0)[0]
+                st = self.reasm[k] = [want, bytearray(payload[2:])]
+            else:
+                st[1] += payload
+            if len(st[1]) >= st[0]:
+                del self.reasm[k]
+                self._peer_got(k, bytes(st[1]))
+
+    def _peer_got(self, k, pdu):
+        self.sent.append((k, pdu))
+
+    def note_exchange(self, k, request, responses):
+        """update wire_mtu of fixed bearer k from an Exchange MTU Request and the Response on the wire"""
+        if self.kinds[k] or len(request) < 3 or request[0] != 0x02:
+            return
+        client = request[1] | (request[2] << 8)
+        for p in responses:
+            if len(p) == 3 and p[0] == 0x03 and client >= 23:
+                self.wire_mtu[k] = min(client, p[1] | (p[2] << 8))
+
     def deliver(self, pdu: bytes, k: int = 0):
-        """One PDU from the peer on bearer k, through the real entry point of that bearer."""
+        """One ATT PDU from the peer on bearer k, as L2CAP frames through ChannelManager.on_pdu."""
+        before = len(self.sent)
         try:
             if self.kinds[k]:
-                self.bearers[k].sink(pdu)
+                info = self.peer[k]
+                sdu = le16(len(pdu)) + pdu
+                mps = info['srv_mps']
+                for off in range(0, len(sdu), mps):
+                    self.manager.on_pdu(self.conns[k], info['dcid'], sdu[off:off + mps])
             elif pdu[0] & 1:
                 # Device.on_gatt_pdu routes odd opcodes to the GATT client; hand them to the server the
                 # way the EATT sink does, so that "every opcode" reaches Server.on_gatt_pdu
@@ -337,9 +414,12 @@ class Env:
                     return 'parse-error'
                 self.server.on_gatt_pdu(self.bearers[k], att_pdu)
             else:
-                self.device.on_gatt_pdu(CONN_HANDLE + k, pdu)
+                self.manager.on_pdu(self.conns[k], self.att.ATT_CID, pdu)
         except Exception as e:          # what escapes into the transport
             return type(e).__name__
+        finally:
+            # the Exchange MTU Response is sent synchronously
+            self.note_exchange(k, pdu, [p for (b, p) in self.sent[before:] if b == k])
         return None
 
     def spawn(self, coro):
@@ -380,6 +460,34 @@ async def settle():
     return True
 
 
+def plan_wire(rng, scn):
+    """Decide how the ATT_MTU of each bearer of a scenario comes about ON THE WIRE and set bearer['mtu'] to the
+    resulting value.  Enhanced bearers: the server's EATT spec MTU ('eatt_mtu') and the peer's MTU field
+    ('peer_mtu'), either side being the smaller one, peer MPS in {23, 64, 100, 2048, 65533}, server MPS, LE or
+    enhanced credit-based connection request.  Fixed bearers: min(requested, max_mtu) through a real exchange."""
+    bs = scn_bearers(scn)
+    enh = [b for b in bs if b.get('enh')]
+    if enh:
+        m = enh[0]['mtu']
+        if len(enh) > 1 or rng.chance(1, 2):
+            scn['eatt_mtu'] = rng.choice([2048, 2048, 65535, max(m, 517)])          # the peer announces the smaller MTU
+            for e in enh:
+                e['peer_mtu'] = e['mtu']
+        else:
+            scn['eatt_mtu'] = m                                                      # the server does
+            enh[0]['peer_mtu'] = rng.choice([2048, 65535, m + 1, m])
+        scn['eatt_mps'] = rng.choice([2048, 2048, 64, 100, 23])
+        for e in enh:
+            e['peer_mps'] = rng.choice([23, 64, 100, 2048, 65533])
+            e['req'] = rng.choice(['le', 'enhanced'])
+    for b in bs:
+        if b.get('enh'):
+            b['mtu'] = min(scn.get('eatt_mtu', 2048), b.get('peer_mtu') or b['mtu'])
+        elif b['mtu'] != 23:
+            b['mtu'] = min(b['mtu'], scn.get('max_mtu', 517))
+    return scn
+
+
 def scn_bearers(scn):
     return scn['bearers'] if 'bearers' in scn else [scn['bearer']]
 
@@ -398,12 +506,15 @@ def run_impl(scn):
     'db': model database, 'ops': ops with CCCD writes resolved, 'op_bearer': bearer index per op}."""
 
     async def main():
-        env = Env(scn['db'], scn_bearers(scn), scn.get('max_mtu', 517))
+        env = Env(scn['db'], scn_bearers(scn), scn.get('max_mtu', 517), scn.get('eatt_mtu', 2048),
+                  scn.get('eatt_mps', 2048))
         model_db = env.model_db()
+        init_mtus = list(env.wire_mtu)
+        frames0 = env.frames
         outs, escaped, mtus, stray, resolved, idx, mtus_after = [], [], [], [], [], [], []
         for k, o in scn_ops(scn):
             before = len(env.sent)
-            mtus.append(env.bearers[k].att_mtu)
+            mtus.append(env.wire_mtu[k])
             esc = None
             if o[0] == 'cccd':
                 o = ['rx', cccd_write(model_db, o)]
@@ -433,9 +544,10 @@ def run_impl(scn):
             escaped.append(esc)
             resolved.append(o)
             idx.append(k)
-            mtus_after.append(env.bearers[k].att_mtu)
+            mtus_after.append(env.wire_mtu[k])
         res = {'outs': outs, 'escaped': escaped, 'stray': stray, 'values': [v.hex() for v in env.values()],
                'mtu': env.bearers[0].att_mtu, 'final_mtus': [b.att_mtu for b in env.bearers], 'mtus': mtus, 'mtus_after': mtus_after,
+               'init_mtus': init_mtus, 'wire_mtus': list(env.wire_mtu), 'k_frames': env.frames - frames0,
                'db': model_db, 'ops': resolved, 'op_bearer': idx}
         for t in env.tasks:
             t.cancel()
@@ -496,8 +608,9 @@ def coq_bool(b):
     return 'true' if b else 'false'
 
 
-def coq_bearer(b):
-    return f"(mkBearer {coq_z(b['mtu'])} {coq_bool(b['enc'])} {coq_bool(b['auth'])} {coq_bool(b.get('enh'))})"
+def coq_bearer(b, mtu=None):
+    return (f"(mkBearer {coq_z(b['mtu'] if mtu is None else mtu)} {coq_bool(b['enc'])} {coq_bool(b['auth'])} "
+            f"{coq_bool(b.get('enh'))})")
 
 
 def coq_optbytes(hexs):
@@ -521,7 +634,7 @@ def coq_op(o, model_db=None):
     raise ValueError(o)
 
 
-def coq_scenario(model_db, scn):
+def coq_scenario(model_db, scn, init_mtus=None):
     """closed Coq term: (outputs per op, final values, final mtu)"""
     db = coq_list(model_db, coq_attr)
     if any(o[0] == 'burst' for o in scn['ops']):
@@ -530,15 +643,16 @@ def coq_scenario(model_db, scn):
     else:
         ops = coq_list(scn['ops'], lambda o: coq_op(o, model_db))
         runner = 'run'
-    return (f"let r := {runner} (init {db} {coq_bearer(scn['bearer'])} {coq_z(scn.get('max_mtu', 517))}) {ops} in "
+    return (f"let r := {runner} (init {db} {coq_bearer(scn['bearer'], (init_mtus or [None])[0])} {coq_z(scn.get('max_mtu', 517))}) {ops} in "
             f"(opt_out r, final_values r, final_mtu r)")
 
 
-def coq_scenario_multi(model_db, scn):
+def coq_scenario_multi(model_db, scn, init_mtus=None):
     """closed Coq term for a several-bearer scenario: (outputs per op, final values, final mtus)"""
     db = coq_list(model_db, coq_attr)
     ops = '[' + '; '.join(f'({k}%nat, {coq_op(o, model_db)})' for k, o in scn_ops(scn)) + ']'
-    bs = '[' + '; '.join(coq_bearer(b) for b in scn_bearers(scn)) + ']'
+    init_mtus = init_mtus or [None] * len(scn_bearers(scn))
+    bs = '[' + '; '.join(coq_bearer(b, m) for b, m in zip(scn_bearers(scn), init_mtus)) + ']'
     return (f"let r := mrun (minit {db} {coq_z(scn.get('max_mtu', 517))} {bs}) {ops} in "
             f"(opt_out_m r, final_values_m r, final_mtus r)")
 
